@@ -64,10 +64,22 @@ EncodeClass(e, cats) ==
     ELSE IF e.T2 # e.X2 THEN "Unconstrained"
     ELSE "Encode"
 
+(* every unseen value of T2 lies outside the u16 code range and its saturated code (0 for
+   negative values, 65535 for large ones) is a fitted category of its column: the as-built
+   `as u16` cast then silently encodes it as that category (known finding) *)
+UnseenOnlyBySaturation(X, T, cats) ==
+    \A j \in cats : \A r \in 1..NRows(T) :
+        T[r][j + 1] \notin Range(ColOf(X, j)) =>
+            /\ OutOfCodeRange(T[r][j + 1])
+            /\ SaturatedCode2(T[r][j + 1]) \in Range(ColOf(X, j))
+
 EncodeVerdict(e, cats, class) ==
     IF class = "FitErr" THEN (IF e.fit = "err" THEN "" ELSE "FitRejectsNonInteger")
     ELSE IF e.fit # "ok" THEN "FitSucceeds"
-    ELSE IF class = "Unseen" THEN (IF e.status = "err" THEN "" ELSE "TransformRejectsUnseen")
+    ELSE IF class = "Unseen" THEN
+        (IF e.status = "err" THEN ""
+         ELSE IF e.status = "ok" /\ UnseenOnlyBySaturation(e.X2, e.T2, cats) THEN "TransformRejectsUnseen@saturated-code-seen"
+         ELSE "TransformRejectsUnseen")
     ELSE IF class = "Unconstrained" THEN ""
     ELSE IF e.status # "ok" THEN "TransformSucceeds"
     ELSE IF ~e.outExact THEN "OutputValues"
@@ -89,7 +101,8 @@ ObsCore(o) == [num |-> o.num, getNum |-> o.getNum, ordinal |-> o.ordinal, ohSome
 
 Hit(h, name) == [h EXCEPT ![name] = @ + 1]
 HitNames == {"Encode", "EncodeNonTrivial", "FitErr", "Unseen", "Unconstrained", "NegZeroPassThrough", "RowLadder",
-             "RowsDifferAcrossBlocks", "UnseenLateRow", "FitErrLateRow", "NdColumnMajor", "Mapper",
+             "RowsDifferAcrossBlocks", "UnseenLateRow", "FitErrLateRow", "NdColumnMajor", "FitErrCancelling",
+             "UnseenOutOfCodeRange", "UnseenSaturatesToSeen", "UnseenInfinite", "Mapper",
              "MapperUnconstrained", "MapperUnknownProbe", "Expect", "Drift"}
 
 Bad(e, clause) == PrintT(<<"BAD", l, e.run, e.ev, clause>>)
@@ -114,7 +127,18 @@ StepEncode(e) ==
         h2e   == IF class = "FitErr" /\ n > 64 /\ (\A j \in cats : \A r \in 1..64 : e.X2[r][j + 1] % Scale = 0)
                  THEN Hit(h2d, "FitErrLateRow") ELSE h2d
         h2f   == IF e.ty = "nd64" THEN Hit(h2e, "NdColumnMajor") ELSE h2e
-        h3    == IF e.hasExpect THEN Hit(h2f, "Expect") ELSE h2f
+        (* a categorical column with a negative and a positive non-integer value (deviations
+           from the truncated codes of opposite sign) *)
+        h2g   == IF class = "FitErr" /\ (\E j \in cats : \E r1, r2 \in 1..n :
+                        e.X2[r1][j + 1] < 0 /\ e.X2[r1][j + 1] % Scale # 0 /\ e.X2[r2][j + 1] > 0 /\ e.X2[r2][j + 1] % Scale # 0)
+                 THEN Hit(h2f, "FitErrCancelling") ELSE h2f
+        oor   == class = "Unseen" /\ (\E j \in cats : \E r \in 1..Len(e.T2) :
+                        OutOfCodeRange(e.T2[r][j + 1]) /\ e.T2[r][j + 1] \notin Range(ColOf(e.X2, j)))
+        h2h   == IF oor THEN Hit(h2g, "UnseenOutOfCodeRange") ELSE h2g
+        h2i   == IF oor /\ UnseenOnlyBySaturation(e.X2, e.T2, cats) THEN Hit(h2h, "UnseenSaturatesToSeen") ELSE h2h
+        h2j   == IF oor /\ (\E j \in cats : \E r \in 1..Len(e.T2) : e.T2[r][j + 1] \in {INF2, NINF2})
+                 THEN Hit(h2i, "UnseenInfinite") ELSE h2i
+        h3    == IF e.hasExpect THEN Hit(h2j, "Expect") ELSE h2j
         h4    == IF e.hasExpect /\ v = "" /\ e.out2 # e.expect2 THEN Hit(h3, "Drift") ELSE h3
     IN  /\ hits' = h4
         /\ IF v = "" THEN nbad' = nbad ELSE Bad(e, v) /\ nbad' = nbad + 1
